@@ -24,7 +24,13 @@ func (s *Sim) operator(cmd, mode string) {
 // minimise shrinks scenario and tape while the same oracle keeps firing.
 func minimise(t *testing.T, sc *Scenario, tape []uint32, v Violation) (*Scenario, []uint32, int) {
 	want := sig(v)
+	budget := 60
+	deadline := time.Now().Add(*flagMinFor) // real time: heavy scenarios are reported less minimised
 	fires := func(c *Scenario, fixed []uint32, zeroFrom int) (*RunResult, bool) {
+		if time.Now().After(deadline) {
+			budget = 0
+			return &RunResult{}, false
+		}
 		r := execRun(t, c, fixed, zeroFrom, false)
 		for _, x := range r.Viol {
 			if sig(x) == want {
@@ -40,7 +46,6 @@ func minimise(t *testing.T, sc *Scenario, tape []uint32, v Violation) (*Scenario
 		return &n
 	}
 	best := clone(sc)
-	budget := 60
 	try := func(mut func(c *Scenario) bool) {
 		for budget > 0 {
 			c := clone(best)
@@ -160,6 +165,9 @@ func minimise(t *testing.T, sc *Scenario, tape []uint32, v Violation) (*Scenario
 	// tape: prefer the boring schedule (first enabled event) from some point on
 	r, ok := fires(best, nil, -1)
 	if !ok {
+		if time.Now().After(deadline) {
+			return best, nil, -1 // out of time: every accepted candidate had fired
+		}
 		return sc, tape, -1
 	}
 	zero := -1
